@@ -9,6 +9,7 @@ use rust_dsymbols::dsets::DSet;
 use rust_dsymbols::generators::dset_generators::DSets;
 
 use crate::dsx::{curvature_2d, spherical_2d, Sym};
+use crate::prng::SplitMix64;
 
 const VS: [usize; 5] = [1, 2, 3, 4, 6];
 
@@ -244,6 +245,91 @@ pub fn cube_manifold(t: [usize; 3]) -> Sym {
         row[0] = 0;
     }
     Sym { n, dim: 3, op, v: vv }
+}
+
+
+/// A closed 3-dimensional pseudo-manifold from `k` tetrahedra whose 4k faces
+/// are glued in seeded random pairs by seeded random vertex bijections (the
+/// classical face-pairing construction of 3-manifold triangulations), as a
+/// D-set: chambers are the flags (tetrahedron, vertex < edge < face), i.e.
+/// (t, permutation p of 0..4) with vertex p0, edge {p0,p1}, face {p0,p1,p2};
+/// op i swaps positions i and i+1 for i = 0, 1, 2, op 3 crosses the face
+/// opposite p3. Callers keep the connected ones that pass dsx::manifold_check
+/// (links of vertices, edge midpoints and face centres are 2-spheres): closed
+/// 3-manifolds of all kinds - S^3, lens spaces, S^2 x S^1, connected sums,
+/// flat, Seifert fibred and small hyperbolic manifolds - with cell structures
+/// (faces meeting themselves, edges of degree 1 or 2) that covers of periodic
+/// tilings never produce.
+pub fn random_triangulation(k: usize, seed: u64) -> Option<Sym> {
+    let mut rng = SplitMix64::new(seed ^ 0x7E7A_7E7A_0000_0000 ^ (k as u64) << 48);
+    // permutations of [0,1,2,3] in lexicographic order
+    let mut perms: Vec<[usize; 4]> = vec![];
+    for a in 0..4 {
+        for b in 0..4 {
+            for c in 0..4 {
+                for d in 0..4 {
+                    let p = [a, b, c, d];
+                    let mut seen = [false; 4];
+                    if p.iter().all(|&x| !std::mem::replace(&mut seen[x], true)) {
+                        perms.push(p);
+                    }
+                }
+            }
+        }
+    }
+    let pidx = |p: &[usize; 4]| perms.iter().position(|q| q == p).unwrap();
+    // random perfect matching of the faces (t, a) = face of t opposite vertex a
+    let mut faces: Vec<(usize, usize)> = (0..k).flat_map(|t| (0..4).map(move |a| (t, a))).collect();
+    for i in (1..faces.len()).rev() {
+        let j = rng.below(i + 1);
+        faces.swap(i, j);
+    }
+    // glue[(t, a)] = (t2, a2, phi) with phi: labels -> labels, phi[a] = a2
+    let mut glue = vec![vec![(0usize, 0usize, [0usize; 4]); 4]; k];
+    for pair in faces.chunks(2) {
+        let ((t1, a1), (t2, a2)) = (pair[0], pair[1]);
+        let src: Vec<usize> = (0..4).filter(|&x| x != a1).collect();
+        let mut dst: Vec<usize> = (0..4).filter(|&x| x != a2).collect();
+        for i in (1..3).rev() {
+            let j = rng.below(i + 1);
+            dst.swap(i, j);
+        }
+        let mut phi = [0usize; 4];
+        let mut inv = [0usize; 4];
+        phi[a1] = a2;
+        inv[a2] = a1;
+        for i in 0..3 {
+            phi[src[i]] = dst[i];
+            inv[dst[i]] = src[i];
+        }
+        glue[t1][a1] = (t2, a2, phi);
+        glue[t2][a2] = (t1, a1, inv);
+    }
+    let n = 24 * k;
+    let mut op = vec![vec![0usize; n + 1]; 4];
+    for t in 0..k {
+        for (pi, p) in perms.iter().enumerate() {
+            let d = 24 * t + pi + 1;
+            for i in 0..3 {
+                let mut q = *p;
+                q.swap(i, i + 1);
+                op[i][d] = 24 * t + pidx(&q) + 1;
+            }
+            let (t2, _a2, phi) = glue[t][p[3]];
+            let q = [phi[p[0]], phi[p[1]], phi[p[2]], phi[p[3]]];
+            op[3][d] = 24 * t2 + pidx(&q) + 1;
+        }
+    }
+    let mut vv = vec![vec![1usize; n + 1]; 3];
+    for row in vv.iter_mut() {
+        row[0] = 0;
+    }
+    let s = Sym { n, dim: 3, op, v: vv };
+    // op 3 must be an involution (it is, by construction) - and the symbol valid
+    if s.validate().is_err() {
+        return None;
+    }
+    Some(s)
 }
 
 #[cfg(test)]
